@@ -192,14 +192,12 @@ def _intersect3d(ray1, ray2, tol):
     pd2_dot = linalg.vector_dot(pd2_cross, d_cross)
     t2 = pd2_dot / d_magn_square
 
-    # Check for skew case
-    ray1_pt = ray1.eval(t1)
-    ray2_pt = ray2.eval(t2)
-
-    # The tolerance is relative to the magnitude of the compared points
-    pt_scale = max(linalg.vector_magnitude(ray1.p), linalg.vector_magnitude(ray2.p),
-                   linalg.vector_magnitude(ray1_pt), linalg.vector_magnitude(ray2_pt))
-    if linalg.point_distance(ray1_pt, ray2_pt) <= tol * pt_scale:
+    # Check for skew case: the distance between the lines of the rays is |p_diff . (d1 x d2)| / |d1 x d2|. Unlike the
+    # distance between the points evaluated at t1 and t2, it does not suffer from the round-off error of the parameters
+    # of the rays which are almost parallel. The tolerance is relative to the magnitude of the points.
+    line_dist = abs(linalg.vector_dot(p_diff, d_cross)) / d_magn
+    pt_scale = max(linalg.vector_magnitude(ray1.p), linalg.vector_magnitude(ray2.p))
+    if line_dist <= tol * pt_scale:
         return t1, t2, RayIntersection.INTERSECT
     else:
         return t1, t2, RayIntersection.SKEW
